@@ -35,7 +35,8 @@ def AddWithCarry(x, y, c=None):
     sx, sy, sz = Sign(x), Sign(y), Sign(result)
     carry = (sx & sy) | (~sz & (sx | sy))
     overflow = (sz ^ sx) & (sz ^ sy)
-    result.sf = True
+    # (x + 0 + 0 is x itself: flag a copy, not the operand)
+    result = result.signed()
     return (result, carry, overflow)
 
 
@@ -47,7 +48,8 @@ def SubWithBorrow(x, y, c=None):
     sx, sy, sz = Sign(x), Sign(y), Sign(result)
     carry = (~sx & sy) | (sz & (~sx | sy))
     overflow = (sx ^ sy) & (sz ^ sx)
-    result.sf = True
+    # (x + 0 + 0 is x itself: flag a copy, not the operand)
+    result = result.signed()
     return (result, carry, overflow)
 
 
